@@ -47,6 +47,7 @@ struct Params {
 	std::string stdio_track; std::vector<uint32_t> stdio_fail_at; bool stdio_sticky = false;
 	std::vector<uint32_t> accept_fail_at;    // the i-th accept() that finds a pending connection fails with EMFILE (descriptor exhaustion, transient): the connection stays in the backlog
 	std::vector<uint32_t> urandom_fail_at;   // the i-th open("/dev/urandom") fails with EMFILE (descriptor exhaustion) for the listed i
+	unsigned p_connect_inprogress = 0;      // per 1024: a non-blocking connect() answers EINPROGRESS; the connection is completed (or refused) later by complete_connect(), called by an environment actor
 	size_t default_chan_cap = 65536;
 	bool text_trace = false;
 	std::string vroot = "/simfs";   // paths below are served by the in-memory file system
@@ -55,7 +56,7 @@ struct Params {
 // ---------------------------------------------------------------- statistics: what actually fired
 struct Stats {
 	uint64_t steps=0, switches=0, clock_jumps=0;
-	uint64_t short_reads=0, short_writes=0, eagain_r=0, eagain_w=0, eintr=0, spurious=0, resets=0, epipe=0, partitions=0, partition_refused=0, getpeername_enotconn=0, urandom_open_failed=0, accept_emfile=0, file_write_failed=0;
+	uint64_t short_reads=0, short_writes=0, eagain_r=0, eagain_w=0, eintr=0, spurious=0, resets=0, epipe=0, partitions=0, partition_refused=0, getpeername_enotconn=0, urandom_open_failed=0, accept_emfile=0, file_write_failed=0, accept_spurious=0, connect_inprogress=0;
 	uint64_t file_short=0, file_eintr=0, cv_spurious=0, stdio_ops=0, stdio_fail=0;
 	uint64_t threads_created=0, mutex_contended=0, rw_contended=0, cv_waits=0;
 	uint64_t accepts=0, connects=0, bytes_rx=0, bytes_tx=0;
@@ -155,6 +156,10 @@ bool is_listening(const std::string &addr);
 int open_sim_fds();                     // number of simulated descriptors currently open
 void set_link_cut(int node,const std::string &addr,bool cut);   // fault: partition between one node's threads and one listening address
 int unconsumed_resets();                 // connecting-side sockets hit by an injected reset whose owner has not closed them yet
+void lock_audit(bool on);                // on: start recording the addresses of the mutexes / rwlocks the code under test locks
+std::vector<const void*> audited_locks();
+int connecting_count();                  // non-blocking connects that answered EINPROGRESS and are not completed yet
+bool complete_connect(uint64_t pick);    // completes one of them: established if somebody listens there now, refused otherwise
 bool reset_accepted_stream(uint64_t pick); // fault: one established (accepted) connection is reset, both ends see ECONNRESET
 int open_accepted_fds();                // ... of which were returned by accept() (server side connections)
 std::string describe_fds();
